@@ -75,6 +75,36 @@ type Client struct {
 	// EOFReads counts reads after the client has closed; a server that keeps reading is spinning.
 	EOFReads int
 	Spun     bool
+	waiting  bool
+}
+
+// Waiting reports whether the server is blocked reading this connection (call at quiescence).
+func (c *Client) Waiting() bool { c.mu.Lock(); defer c.mu.Unlock(); return c.waiting }
+
+// Feed hands bytes to the server if (and only if) it is waiting for input; reports whether it was.
+func (c *Client) Feed(b []byte) bool {
+	if !c.Waiting() {
+		return false
+	}
+	c.feed <- b
+	return true
+}
+
+// End closes the client side if the server is still reading it.
+func (c *Client) End() {
+	c.mu.Lock()
+	if c.eof {
+		c.mu.Unlock()
+		return
+	}
+	c.mu.Unlock()
+	if c.Waiting() {
+		close(c.feed)
+		return
+	}
+	c.mu.Lock()
+	c.eof = true
+	c.mu.Unlock()
 }
 
 func NewClient() *Client {
@@ -102,7 +132,13 @@ func (c *Client) Read(p []byte) (int, error) {
 		case c.idle <- struct{}{}:
 		default:
 		}
+		c.mu.Lock()
+		c.waiting = true
+		c.mu.Unlock()
 		b, ok := <-c.feed
+		c.mu.Lock()
+		c.waiting = false
+		c.mu.Unlock()
 		if !ok {
 			c.mu.Lock()
 			c.eof = true
